@@ -99,6 +99,11 @@ class Ctx:
             s = canon(case)
             self.samples.append(json.loads(s) if len(s) < 4000 else {"truncated": s[:4000]})
 
+    def running(self, case, what="a logging call"):
+        """Tell the watchdog which input the real code is being run on right now (None = not in the library).  If the
+        library does not come back within HANG_S seconds the check ends with a violation: a hang on that input."""
+        self._running = None if case is None else (case, what, time.time())
+
     def count(self, *tags, n=1):
         for t in tags:
             self.dist[t] += n
@@ -429,6 +434,38 @@ def _restore_generated():
             extract.regenerate(Path("/repo"), LEAN / "Eliot" / "Generated")
 
 
+HANG_S = int(os.environ.get("VERIF_HANG_S", "90"))
+
+
+def _start_watchdog(ctx, args, limit):
+    """A signal handler's exception can be swallowed by a bare `except:` inside the library under test, and a thread blocked on
+    a lock it holds itself never returns: the watchdog thread ends the check from outside.  (a) the library has not come
+    back from one input for HANG_S seconds -> violation (a hang / deadlock on that input, with the input as replay);
+    (b) the whole check exceeds its time limit -> infrastructure error (exit 2)."""
+    import threading
+
+    def watch():
+        while True:
+            time.sleep(3)
+            cur = getattr(ctx, "_running", None)
+            now = time.time()
+            if cur is not None and now - cur[2] > HANG_S:
+                try:
+                    ctx.violation("%s did not return within %d s on this input: the library hangs (deadlock or endless loop)"
+                                  % (cur[1], HANG_S), cur[0], key=None)
+                    mod = importlib.import_module("harness.props.%s" % args.prop)
+                    code = finish(ctx, mod)
+                    sys.stdout.flush()
+                finally:
+                    os._exit(1)
+            if now - ctx.t0 > limit + 30:
+                print("INFRA-ERROR property=%s check exceeded its time limit (%s tier) and could not be interrupted" % (args.prop, args.tier))
+                sys.stdout.flush()
+                os._exit(2)
+
+    threading.Thread(target=watch, daemon=True, name="verif-watchdog").start()
+
+
 def main(argv):
     import atexit
     atexit.register(_restore_generated)
@@ -456,13 +493,16 @@ def main(argv):
         raise InfraError("check exceeded its time limit (%s tier)" % args.tier)
 
     signal.signal(signal.SIGALRM, _timeout)
+    _start_watchdog(ctx, args, int(os.environ.get("VERIF_TIMEOUT", 1500 if args.tier == "quick" else 5400)))
     signal.alarm(int(os.environ.get("VERIF_TIMEOUT", 1500 if args.tier == "quick" else 5400)))
     try:
         mod = importlib.import_module("harness.props.%s" % args.prop)
         if args.replay:
             obj = json.loads(Path(args.replay).read_text())
             ctx.replaying = True
+            ctx.running(obj.get("case"), "the replayed input")  # a replay that hangs is a violation too (watchdog)
             mod.replay(ctx, obj)
+            ctx.running(None)
             return finish(ctx, mod)
         if not args.no_lean:
             lean_stage(ctx, mod)
